@@ -55,6 +55,22 @@ Theorem C04_selfsign_only_ca : forall kc t fp fp2,
 Proof. exact selfsign_only_ca. Qed.
 Print Assumptions C04_selfsign_only_ca.
 
+(* Re-issue: the outcome of signing a request - under a signer or self-signed - does not depend on earlier
+   signings of the same TBSCertificate object (whatever they left in its unexported issuer field): it is the
+   outcome for a fresh request. In particular a certificate issued under a signer names THIS signer
+   (C04_within_constraints) and verifies against this signer's pool (C04_sign_implies_verify), and a
+   self-signed one has no issuer (C04_selfsign_only_ca). *)
+Theorem C04_resign_independent : forall h signer kc t iss0 fp fp2,
+  fst (sign_with_st signer kc t (issuer_after [] h) fp fp2) = sign_with signer kc t fp fp2 /\
+  fst (sign_st signer kc t (issuer_after [] h) fp fp2) = sign signer kc t fp fp2 /\
+  fst (sign_with_st signer kc t iss0 fp fp2) = sign_with signer kc t fp fp2 /\
+  fst (sign_st signer kc t iss0 fp fp2) = sign signer kc t fp fp2.
+Proof.
+  intros. destruct (resign_independent h signer kc t fp fp2) as [H1 H2].
+  destruct (resign_any signer kc t iss0 fp fp2) as [H3 H4]. repeat split; assumption.
+Qed.
+Print Assumptions C04_resign_independent.
+
 (* Curve guard, as the code has it: the curve of the KEY must be the curve in the request; Sign (the variant
    taking a private key) moreover refuses every curve but the two known ones. *)
 Theorem C04_curve_guard : forall signer kc t fp fp2,
